@@ -532,14 +532,24 @@ impl Harness for C12 {
             }
         }
         // small-scale data (coordinates ~1e-4 and ~1e-6): every clause is scale invariant
-        for &sc in &[0.0001220703125f64, 9.5367431640625e-7] {
+        // the third scale, 2^-30, puts squared distances (~1e-18) below machine epsilon: an absolute
+        // threshold on a squared distance anywhere in fit or predict shows there (1-D / 2-D fits only;
+        // the BBD-tree's own leaf threshold of 1e-10 on a cell radius stays below the lattice step)
+        for &sc in &[0.0001220703125f64, 9.5367431640625e-7, 9.313225746154785e-10] {
+            let tiny = sc < 1e-8;
             for (n, k) in [(3usize, 2usize), (4, 2), (3, 3), (4, 3)] {
-                if !t && n == 4 && k == 3 {
+                if (!t || tiny) && n == 4 && k == 3 {
+                    continue;
+                }
+                if tiny && !t && n == 4 {
                     continue;
                 }
                 fit_jobs.push(Job::new(format!("fit-1d-n{}-k{}-scale{:e}", n, k, sc), json!({"kind": "fit", "n": n, "dim": 1, "side": 4, "k": k, "edges": false, "scale": sc})));
             }
             fit_jobs.push(Job::new(format!("fit-2d-n3-k2-scale{:e}", sc), json!({"kind": "fit", "n": 3, "dim": 2, "side": 3, "k": 2, "edges": false, "scale": sc})));
+            if tiny {
+                continue;
+            }
             for &n in &[12usize, 40] {
                 for dim in [1usize, 2, 3] {
                     for k in [2usize, 3] {
@@ -616,7 +626,7 @@ impl Harness for C12 {
             bounds: json!({
                 "builders": mc_sc::builders::BOUNDS,
                 "entry_paths": mc_sc::entry::BOUNDS,
-                "small_scale": "1-D / 2-D all-schedule fits (n<=4) and the structured fits (n in {12,40}, dim<=3, k<=3) with every coordinate multiplied by 2^-13 and 2^-20 (tolerances scaled with the data)", "off_centre": "assignment lattices (n<=3 1-D, n<=2 2-D; one more in thorough), the structured assignment families, 1-D/2-D all-schedule fits (n<=4) and the structured fits (dim<=3, k<=3) repeated with every coordinate translated by 2^27 and by 1.7e9 (exact in f64): same oracle, decisions are translation invariant", "assignment_step_structured": "6 structured families (incl. grid + off-corner group, mixed-scale columns: 5e11 next to steps of 2^-16, and a column of adjacent doubles 5e11 / 5e11+1ulp), n in {36,57} (up to 200 thorough), 1..3 dimensions, every centroid multiset of size 2,3 from 10 data-derived candidates", "assignment_step": "every point sequence n<=4 (5 thorough) on {0..3} and n<=3 (4) on the 3x3 lattice x every centroid multiset of size 2,3 from the half-step grid plus far points",
+                "small_scale": "1-D / 2-D all-schedule fits (n<=4) and the structured fits (n in {12,40}, dim<=3, k<=3) with every coordinate multiplied by 2^-13 and 2^-20, the 1-D / 2-D fits also by 2^-30 where squared distances fall below machine epsilon (tolerances scaled with the data)", "off_centre": "assignment lattices (n<=3 1-D, n<=2 2-D; one more in thorough), the structured assignment families, 1-D/2-D all-schedule fits (n<=4) and the structured fits (dim<=3, k<=3) repeated with every coordinate translated by 2^27 and by 1.7e9 (exact in f64): same oracle, decisions are translation invariant", "assignment_step_structured": "6 structured families (incl. grid + off-corner group, mixed-scale columns: 5e11 next to steps of 2^-16, and a column of adjacent doubles 5e11 / 5e11+1ulp), n in {36,57} (up to 200 thorough), 1..3 dimensions, every centroid multiset of size 2,3 from 10 data-derived candidates", "assignment_step": "every point sequence n<=4 (5 thorough) on {0..3} and n<=3 (4) on the 3x3 lattice x every centroid multiset of size 2,3 from the half-step grid plus far points",
                 "fit": format!("every such sequence (quick tier, 2-D with k=3: those starting at the lattice origin) with >=k distinct rows x k in {{2,3}} x max_iter in {{1,2,100}} x every first-index draw x every cutoff draw on a {}-point grid (covers every index of positive weight); edge answers u=0 and u=1-2^-53 on all instances in the thorough tier, on two small families in the quick tier", GRID),
                 "structured": "4 families, n up to 40 (300 thorough), 1..6 dimensions, k up to 8, seeding schedules with at most 1 (2) non-default answers",
             }),
